@@ -36,7 +36,7 @@ class Mgr(S.Suite):
     def extra_argv(self, prop, tier, job, build_index):
         if job == 0 and build_index == 0 and prop in ("C01", "C02"):
             return ["--corpus", "--chains", CHAINS[tier]]
-        if job == 0 and build_index == 0 and prop == "C13":
+        if job == 0 and build_index == 0 and prop in ("C13", "C17"):
             return ["--corpus"]
         return []
 
